@@ -2,7 +2,8 @@
 
 What is enumerated (real TCPServer / H11Protocol / H2Protocol / HTTPStream on both engines):
 
-* the full cartesian product  carrier {HTTP/1.1, HTTP/1.0, HTTP/2 over ALPN, HTTP/2 by h2c upgrade}
+* the full cartesian product  carrier {HTTP/1.1, HTTP/1.0, HTTP/2 over ALPN, HTTP/2 by h2c upgrade, HTTP/2 by
+  h2c upgrade with an empty (zero settings) HTTP2-Settings payload}
   x request method {GET, HEAD} x status {200, 201, 204, 304, 404, 500} x application header list
   {none; content-length matching the body; repeated names + set-cookie twice} x chunking {one empty
   final message; 1 byte; 3 chunks with an empty one in the middle; end signalled by an extra empty
@@ -49,7 +50,8 @@ from mc.x_c01c02c13_ref import body_suppressed, response_header_problems
 
 ID = "C02"
 LEVEL = "model_checking"
-TECHNIQUE = ("bounded exhaustive enumeration of application response scripts x carriers x request methods, plus "
+TECHNIQUE = ("bounded exhaustive enumeration of application response scripts x carriers (HTTP/1.1, 1.0, HTTP/2 over ALPN, by "
+             "h2c upgrade, by h2c upgrade with an empty HTTP2-Settings payload) x request methods, plus "
              "deviation-bounded stateless exploration of client pacing (h2 acknowledgements, transport pause/resume, "
              "application gates, HTTP/2 credit scripts: exact window without acknowledgement, connection-only credit, "
              "stream-then-connection credit, four concurrent streams) on the real TCPServer/H11/H2/HTTPStream code; "
@@ -66,12 +68,15 @@ ASSUMPTIONS = [
     "trailers: forbidden on HTTP/1 or without te: trailers; on HTTP/2 with te: trailers the trailers the application "
     "announced (trailers: True) and sent must arrive unaltered after the body",
     "early hints (103) are not judged themselves, only that the final response is unaffected",
+    "h2c upgrade with an empty HTTP2-Settings payload: only client pacings that do not depend on SETTINGS values of the "
+    "client's own (those take effect when its SETTINGS frame arrives, the server may legally have sent more by then); "
+    "gates x transport pause/resume and the four-stream script are explored on the ordinary h2c carrier only",
 ]
-BOUNDS_DOC = {"quick": "full product eager; paced selection (incl. the HTTP/2 credit scripts: bodies of exactly 1000 / 65 535 "
+BOUNDS_DOC = {"quick": "full product eager (5 carriers); paced selection (incl. the HTTP/2 credit scripts: bodies of exactly 1000 / 65 535 "
                        "bytes = the window, 70 000 and 200 000 bytes against stream-0-only / stream-then-connection credit, "
                        "4 x 20 000 bytes concurrently) M<=1,S<=2",
               "thorough": "full product eager; paced selection M<=2,S<=3 (four concurrent streams: M<=1,S<=3)"}
-BUDGET = {"quick": 100, "thorough": 1500}
+BUDGET = {"quick": 300, "thorough": 1500}
 
 BIGW = bytes(range(256)) * 273 + b"w" * 112  # 70 000 > 65 535 (initial HTTP/2 window)
 BIGF = b"f" * 20000  # > 16 384 (max frame size)
@@ -99,7 +104,12 @@ PACED_CHUNKINGS: Dict[str, List[tuple]] = {
 }
 ALL_CHUNKINGS = {**CHUNKINGS, **PACED_CHUNKINGS}
 STATUSES = [200, 201, 204, 205, 304, 404, 500]  # 205: a status that is NOT body-less (only 1xx/204/304 are)
-CARRIERS = ["h1", "h10", "h2", "h2c"]
+# "h2c0": an h2c upgrade whose HTTP2-Settings value is empty - the base64url text of a SETTINGS payload with zero
+# settings (RFC 7540 3.2.1; every setting keeps its initial value) - the upgraded request's response belongs on
+# stream 1 exactly as after an upgrade with a non-empty payload
+CARRIERS = ["h1", "h10", "h2", "h2c", "h2c0"]
+H2S = ("h2", "h2c", "h2c0")  # carriers on which the response travels as HTTP/2
+H2C = ("h2c", "h2c0")  # ... after an HTTP/1.1 upgrade (101 first, request = stream 1)
 HDRS = ["none", "cl", "rep"]
 TRAILERS = [(b"x-trailer", b"t1"), (b"x-sum", b"2")]
 
@@ -155,38 +165,50 @@ def scenarios(tier: str) -> List[Any]:
                     for hdrs in HDRS:
                         if hdrs == "cl" and status == 204:
                             continue  # RFC 7230 3.3.2 forbids it: an application error, not the server's
-                        if hdrs == "cl" and status == 304 and carrier in ("h2", "h2c"):
+                        if hdrs == "cl" and status == 304 and carrier in H2S:
                             continue  # the h2 *client* library insists on content-length bytes of DATA for a 304
                         for ch in CHUNKINGS:
                             out.append((engine, carrier, method, status, hdrs, ch, "", "eager"))
-            if carrier in ("h2", "h2c"):
+            if carrier in H2S:
                 for extra in ("trailers-te", "trailers-note", "hint"):
                     for method in ("GET", "HEAD"):
                         for ch in ("c0", "c3", "cf"):
                             out.append((engine, carrier, method, 200, "rep", ch, extra, "eager"))
                 for pace, chs in (("win100", ("c3", "cf")), ("win1", ("c1", "c3"))):
+                    if carrier == "h2c0":
+                        # a client that announces a smaller window in the SETTINGS frame behind an empty upgrade payload
+                        # may legally be sent more than that window before the frame arrives: not a pacing the client
+                        # library can judge
+                        continue
                     for ch in chs:
                         for hdrs in ("none", "cl"):
                             out.append((engine, carrier, "GET", 200, hdrs, ch, "", pace))
             # pacing
-            paces = ["net", "gates+net"] + (["acks", "gates+acks", "smallacks"] if carrier in ("h2", "h2c") else [])
+            paces = ["net", "gates+net"] + (["acks", "gates+acks", "smallacks"] if carrier in H2S else [])
+            if carrier == "h2c0":
+                # the empty payload only changes how the HTTP/2 connection is initiated; the interleaving-heavy
+                # pacings (gates x transport pause/resume, four concurrent streams) are explored on "h2c"
+                paces.remove("gates+net")
             for pace in paces:
                 for ch in ("cw", "cf", "c3"):
                     if pace == "smallacks" and ch != "cw":
                         continue
                     for hdrs in ("none", "cl"):
                         out.append((engine, carrier, "GET", 200, hdrs, ch, "", pace))
-                if carrier in ("h2", "h2c") and pace in ("acks", "gates+net"):
+                if carrier in H2S and pace in ("acks", "gates+net"):
                     out.append((engine, carrier, "GET", 200, "none", "c3", "trailers-te", pace))
-            if carrier in ("h2", "h2c"):
+            if carrier in H2S:
                 for pace, chs in (("exact1k", ("x1k", "x1ke", "x1ks")), ("gates+exact1k", ("x1ke", "x1ks")),
                                   ("exact64k", ("x64k", "x64ke")), ("gates+exact64k", ("x64ke",)),
                                   ("conncredit", ("c200k", "c200k2")), ("streamconn", ("c200k",)), ("connstream", ("c200k",)),
                                   ("streamconn1", ("cw",)), ("connstream1", ("cw",))):
+                    if carrier == "h2c0" and pace_of(pace)["settings"]:
+                        continue  # (as above: scripts built on the client's own SETTINGS values)
                     for ch in chs:
                         for hdrs in ("none", "cl"):
                             out.append((engine, carrier, "GET", 200, hdrs, ch, "", pace))
-                out.append((engine, carrier, "GET", 200, "none", "c20k", "", "four"))
+                if carrier != "h2c0":
+                    out.append((engine, carrier, "GET", 200, "none", "c20k", "", "four"))
     return out
 
 
@@ -236,7 +258,7 @@ def plan(params: Any, chooser: Any) -> tuple:
     pc = pace_of(pace)
     m = method.encode()
     te = extra == "trailers-te"
-    conn: Dict[str, Any] = {"carrier": "h1" if carrier == "h10" else carrier, "methods": [m]}
+    conn: Dict[str, Any] = {"carrier": {"h10": "h1", "h2c0": "h2c"}.get(carrier, carrier), "methods": [m]}
     settings = pc["settings"]  # the client's SETTINGS (INITIAL_WINDOW_SIZE)
     if settings:
         conn["h2_settings"] = dict(settings)
@@ -248,14 +270,15 @@ def plan(params: Any, chooser: Any) -> tuple:
         conn.update(tls=True, alpn="h2")
         client = [("cmd", 0, "preface")] + [("cmd", 0, "headers", sid, h2_request_headers(m, b"/r", extra=tef), True) for sid in sids]
     else:
-        hs = [(b"Connection", b"Upgrade, HTTP2-Settings"), (b"Upgrade", b"h2c"), (b"HTTP2-Settings", h2c_settings_header(settings))]
+        payload = b"" if carrier == "h2c0" else h2c_settings_header(settings)
+        hs = [(b"Connection", b"Upgrade, HTTP2-Settings"), (b"Upgrade", b"h2c"), (b"HTTP2-Settings", payload)]
         if te:
             hs.append((b"TE", b"trailers"))
         # (the client's preface leaves it with its next command: the flush, or the next request)
         client = [("data", 0, h1_request(m, b"/r", hs))] + ([("cmd", 0, "flush")] if len(sids) == 1 else []) + \
                  [("cmd", 0, "headers", sid, h2_request_headers(m, b"/r", scheme=b"http", extra=tef), True) for sid in sids[1:]]
     sources = [("client", client)]
-    if carrier in ("h2", "h2c") and pc["acks"] is None:
+    if carrier in H2S and pc["acks"] is None:
         # the live client's own WINDOW_UPDATE / SETTINGS ack frames leave it when a flush event fires
         flush = [("cmd", 0, "flush")] * pc["flushes"]
         if pc["single"]:
@@ -309,7 +332,7 @@ def oracle(w: Any, params: Any, ctx: Any) -> List[dict]:
         r = resps[0]
         views.append((tag, r["status"], r["headers"], r["body"], r["trailers"] or None, r["complete"], "incomplete"))
     else:
-        if carrier == "h2c":
+        if carrier in H2C:
             resps = cl.h1.responses
             if [x["status"] for x in resps] != [101]:
                 out.append(V("response-count", f"{carrier}:no-101", [(x["status"], x["complete"]) for x in resps]))
